@@ -3,6 +3,7 @@
 
 mod audit;
 mod batch;
+mod boundary;
 mod comps;
 mod engine;
 mod exec;
@@ -54,6 +55,7 @@ fn main() {
         "replay" => batch::cmd_replay(&m),
         "hashes" => batch::cmd_hashes(&m),
         "gen" => batch::cmd_gen(&m),
+        "boundary" => boundary::cmd_boundary(&m),
         "info" => {
             let c = engine::build_cfg();
             println!("wrapping={} events={} debug={} hooks={} wide32={}", c.wrapping, c.events, c.debug, c.hooks, cfg!(feature = "32_components"));
